@@ -742,7 +742,38 @@ def rule_ffset(repo):
     return r
 
 
-RULES = [rule_effects, rule_tick_order, rule_dbuf_set, rule_flip_cover, rule_init, rule_ffset]
+def rule_next_in_range(repo):
+    """the pending value committed at the edge is a valid value of the register's width (shared with C04: R-C04-range covers
+    every writer of _next)"""
+    from rules.c04 import rule_range
+    return rule_range(repo)
+
+
+def rule_writes_detected(repo):
+    """needs_double_buffer is set from the detected write set of the update_ff block: writes must be detected wherever they
+    occur (shared with C02: R-C02-visitor)"""
+    from rules.c02 import rule_visitor
+    return rule_visitor(repo)
+
+
+def rule_ff_not_comb(repo):
+    r = RuleResult('R-C07-ff-not-comb', "update_ff blocks of the whole design are excluded from every combinational schedule")
+    for rel, q in ((SIMPLE, 'SimpleSchedulePass.schedule_intra_cycle'), ('pymtl3/passes/mamba/HeuristicTopoPass.py', 'HeuristicTopoPass.schedule_intra_cycle'),
+                   ('pymtl3/passes/sim/DynamicSchedulePass.py', 'DynamicSchedulePass.schedule_intra_cycle'), (MAMBA, 'Mamba2020Pass.schedule_intra_cycle')):
+        m = repo.mod(rel)
+        f = m.get_func(q)
+        vdef = [s for s in f.body if isinstance(s, ast.Assign) and norm(s.targets[0]) == 'V']
+        ok = len(vdef) == 1 and isinstance(vdef[0].value, ast.BinOp) and isinstance(vdef[0].value.op, ast.Sub) and \
+            norm(vdef[0].value.right) in ('top.get_all_update_ff()', 'top._dsl.all_update_ff') and norm(vdef[0].value.left) == 'top._dag.final_upblks'
+        (r.ok if ok else r.bad)(m, q, norm(vdef[0]) if vdef else 'V = ...',
+                                *([] if ok else ["the combinational vertex set must exclude ALL update_ff blocks of the design (get_all_update_ff): "
+                                                 "a child's ff block left in the comb schedule runs before and after the edge too", f.lineno]))
+    r.require_floor(4)
+    return r
+
+
+RULES = [rule_effects, rule_tick_order, rule_dbuf_set, rule_flip_cover, rule_init, rule_ffset, rule_ff_not_comb,
+         rule_next_in_range, rule_writes_detected]
 
 
 def _m(name, file, old, new, rule=None, count=1):
